@@ -697,13 +697,13 @@ def judge_generated(ctx, tools, enums, runner, cases, asts, srcs):
     st["disagreeing_programs"] = len(bad)
     if bad:
         single = mslgen.Single(tools, enums, runner.irrun, runner.mslrun, ctx.scale(30000, 120000))
-        deadline = time.time() + ctx.scale(75, 900)
+        deadline = time.time() + ctx.scale(120, 1200)
         for name, (cls, detail, c) in sorted(bad.items(), key=lambda x: len(srcs[x[0]])):
             plan = c["plan"]
             files = {"original.wgsl": srcs[name], "emitted.msl": c["text"], "input.json": json.dumps(c["inp"])}
             if time.time() < deadline:
                 small, info = mslgen.shrink_case(single, asts[name], c["set"], mslgen.input_by_name(plan, c["inp"]), c["inp"]["k"],
-                                                 c["inp"]["rt_len"], cls, budget=ctx.scale(120, 600))
+                                                 c["inp"]["rt_len"], cls, budget=ctx.scale(300, 800), deadline=deadline + 30)
                 st["shrunk"] += 1
                 key = mslgen.key_of(cls, small)
                 files.update({"input.wgsl": info.get("src", ""), "emitted.msl": info.get("msl", c["text"]), "original_emitted.msl": c["text"],
@@ -713,6 +713,7 @@ def judge_generated(ctx, tools, enums, runner, cases, asts, srcs):
                 st["not_shrunk_budget"] += 1
                 key = mslgen.key_of(cls + ":unshrunk", asts[name])
                 files["input.wgsl"] = srcs[name]
+            files["key.txt"] = key
             if key in reported:
                 continue
             reported.add(key)
